@@ -65,6 +65,8 @@ const (
 	opHRemove   // H.Remove(addr)
 	opReattach  // h := Child(a); Remove(a); SetChild(addr, h)   (C15: re-attached children)
 	opMergeOwn  // Merge({to: Child(from)}): copy a subtree of the config to another key of the same config
+	opMergeList // Merge([l, {x:l}, [l]], policy): a list merged into the root itself
+	opHMerge    // H.Merge(list or dict, policy): the receiver is a child that holds the list/dict itself
 )
 
 type pathOp struct {
@@ -99,6 +101,13 @@ func (o pathOp) String() string {
 		return fmt.Sprintf("h:=Child%v;Remove%v;SetChild%v=h", o.From, o.From, o.A)
 	case opMergeOwn:
 		return fmt.Sprintf("Merge({%s:Child%v})", o.A.Name, o.From)
+	case opMergeList:
+		return fmt.Sprintf("Merge([%s,{x:%s},[%s]],%s)", o.Label, o.Label, o.Label, o.Policy)
+	case opHMerge:
+		if o.A.Idx == 0 {
+			return fmt.Sprintf("H.Merge([%s,{x:%s},[%s]],%s)", o.Label, o.Label, o.Label, o.Policy)
+		}
+		return fmt.Sprintf("H.Merge({x:%s,l:[%s]},%s)", o.Label, o.Label, o.Policy)
 	}
 	return "?"
 }
@@ -107,6 +116,27 @@ type pathUniverse struct {
 	ops   []pathOp
 	addrs []addr // observation addresses
 	prop  string
+	// populated: histories start from a config holding a 4-element list and nested lists of
+	// objects (instead of the empty config), so that depth-3 histories reach states like
+	// "two removals, then a write" on long lists
+	populated bool
+}
+
+func (u *pathUniverse) initial() *pathState {
+	if !u.populated {
+		return &pathState{root: ucfg.New(), mroot: tree.New()}
+	}
+	root, err := ucfg.NewFrom(map[string]interface{}{
+		"a": []interface{}{"A0", "A1", "A2", "A3"},
+		"b": map[string]interface{}{"x": "BX", "l": []interface{}{map[string]interface{}{"y": "Y0"}, map[string]interface{}{"y": "Y1"}, []interface{}{"Z0"}}},
+	})
+	if err != nil {
+		panic(err)
+	}
+	m := tree.Dict(
+		"a", tree.List(tree.LeafN("A0"), tree.LeafN("A1"), tree.LeafN("A2"), tree.LeafN("A3")),
+		"b", tree.Dict("x", tree.LeafN("BX"), "l", tree.List(tree.Dict("y", tree.LeafN("Y0")), tree.Dict("y", tree.LeafN("Y1")), tree.List(tree.LeafN("Z0")))))
+	return &pathState{root: root, mroot: m}
 }
 
 func buildPathUniverse(prop string, rich bool) *pathUniverse {
@@ -118,13 +148,15 @@ func buildPathUniverse(prop string, rich bool) *pathUniverse {
 		}
 	}
 	waddrs = append(waddrs, addr{"a", 2, true}, addr{"", 0, true}, addr{"", 1, true})
+	// a write skipping positions, and writes the index limit rejects (they must leave no trace)
+	waddrs = append(waddrs, addr{"a", 3, true}, addr{"n.m", 2000, true}, addr{"a.0.n", 1025, true})
 	for _, n := range []string{"a", "b", "a.b", "0"} {
 		for _, i := range []int{-1, 0} {
 			waddrs = append(waddrs, addr{n, i, false})
 		}
 	}
 	u.addrs = append(u.addrs, waddrs...)
-	u.addrs = append(u.addrs, addr{"a", 3, true}, addr{"b.x", -1, true}, addr{"a.2", -1, true}, addr{"b", 1, false}, addr{"", 2, false})
+	u.addrs = append(u.addrs, addr{"b.x", -1, true}, addr{"a.2", -1, true}, addr{"b", 1, false}, addr{"", 2, false}, addr{"n", -1, true}, addr{"n.m", -1, true}, addr{"a.0.n", -1, true}, addr{"a", 4, true})
 	for i, a := range waddrs {
 		u.ops = append(u.ops, pathOp{Kind: opSetString, A: a, Label: fmt.Sprintf("S%d", i)})
 	}
@@ -142,6 +174,12 @@ func buildPathUniverse(prop string, rich bool) *pathUniverse {
 	}
 	for i, p := range []tree.Policy{tree.Default, tree.Append, tree.Prepend} {
 		u.ops = append(u.ops, pathOp{Kind: opMerge, Policy: p, Label: fmt.Sprintf("M%d", i)})
+	}
+	for i, p := range []tree.Policy{tree.Default, tree.Append, tree.Prepend} {
+		u.ops = append(u.ops, pathOp{Kind: opMergeList, Policy: p, Label: fmt.Sprintf("ML%d", i)})
+		// (A.Idx selects the shape of the source: 0 list, 1 dict)
+		u.ops = append(u.ops, pathOp{Kind: opHMerge, Policy: p, Label: fmt.Sprintf("HL%d", i), A: addr{"", 0, false}})
+		u.ops = append(u.ops, pathOp{Kind: opHMerge, Policy: p, Label: fmt.Sprintf("HD%d", i), A: addr{"", 1, false}})
 	}
 	for _, a := range []addr{{"a", -1, true}, {"a", 0, true}, {"b", -1, false}} {
 		u.ops = append(u.ops, pathOp{Kind: opHandle, A: a})
@@ -303,12 +341,35 @@ func (st *pathState) apply(o pathOp) *core.Violation {
 		}
 		st.mroot = tree.Merge(tree.Default, st.mroot, tree.Dict(o.A.Name, mn.Clone()))
 		st.h, st.mh = nil, nil
+	case opMergeList:
+		src := []interface{}{o.Label, map[string]interface{}{"x": o.Label}, []interface{}{o.Label}}
+		msrc := tree.List(tree.LeafN(o.Label), tree.Dict("x", tree.LeafN(o.Label)), tree.List(tree.LeafN(o.Label)))
+		if err := st.root.Merge(src, append([]ucfg.Option{ucfg.PathSep(".")}, policyOpt[o.Policy]...)...); err != nil {
+			return bad("error", err.Error())
+		}
+		st.mroot = tree.Merge(o.Policy, st.mroot, msrc)
+		st.h, st.mh = nil, nil
+	case opHMerge:
+		if st.h == nil {
+			return nil
+		}
+		var src interface{} = []interface{}{o.Label, map[string]interface{}{"x": o.Label}, []interface{}{o.Label}}
+		msrc := tree.List(tree.LeafN(o.Label), tree.Dict("x", tree.LeafN(o.Label)), tree.List(tree.LeafN(o.Label)))
+		if o.A.Idx == 1 {
+			src = map[string]interface{}{"x": o.Label, "l": []interface{}{o.Label}}
+			msrc = tree.Dict("x", tree.LeafN(o.Label), "l", tree.List(tree.LeafN(o.Label)))
+		}
+		if err := st.h.Merge(src, append([]ucfg.Option{ucfg.PathSep(".")}, policyOpt[o.Policy]...)...); err != nil {
+			return bad("error", err.Error())
+		}
+		// the receiver stays the node of the tree it is (its settings are replaced by copies)
+		*st.mh = *tree.Merge(o.Policy, st.mh, msrc)
 	}
 	return nil
 }
 
 func opKindName(k pathOpKind) string {
-	return [...]string{"SetString", "SetInt", "SetChild", "Remove", "Merge", "Child", "H.SetString", "H.SetChild", "H.Remove", "Reattach", "MergeOwnChild"}[k]
+	return [...]string{"SetString", "SetInt", "SetChild", "Remove", "Merge", "Child", "H.SetString", "H.SetChild", "H.Remove", "Reattach", "MergeOwnChild", "MergeList", "H.Merge"}[k]
 }
 
 // observeC12 compares every observation with the model in the current state.
@@ -551,7 +612,7 @@ func (u *pathUniverse) exec(hist []int) core.Result {
 	var viol *core.Violation
 	skipped := false
 	pi := core.Guard(func() {
-		st := &pathState{root: ucfg.New(), mroot: tree.New()}
+		st := u.initial()
 		for k, oi := range hist {
 			v := st.apply(u.ops[oi])
 			if v != nil && k == len(hist)-1 && u.prop == "C12" {
@@ -592,11 +653,22 @@ func pathCheckUniverses(prop, tier string) []*core.Universe {
 		depth = 4
 		maxFrontier = 60000
 	}
+	up := *u
+	up.populated = true
+	// observation addresses inside the populated part
+	up.addrs = append(append([]addr{}, u.addrs...), addr{"b.l", 0, true}, addr{"b.l", 1, true}, addr{"b.l.0.y", -1, true}, addr{"b.l.1.y", -1, true}, addr{"b.l", 2, true}, addr{"b.l.2", 0, true})
 	return []*core.Universe{{
 		Name:        "pathops",
 		NumOps:      len(u.ops),
 		OpText:      func(op int) string { return u.ops[op].String() },
 		Exec:        u.exec,
+		MaxDepth:    depth,
+		MaxFrontier: maxFrontier,
+	}, {
+		Name:        "pathops-from-populated-config",
+		NumOps:      len(up.ops),
+		OpText:      func(op int) string { return up.ops[op].String() },
+		Exec:        up.exec,
 		MaxDepth:    depth,
 		MaxFrontier: maxFrontier,
 	}}
@@ -609,7 +681,7 @@ func c15PairsSpace(tier string) *core.Space {
 	var hs [][]int
 	hs = append(hs, nil)
 	for i := range u.ops {
-		if u.ops[i].Kind == opSetString || u.ops[i].Kind == opSetChild || u.ops[i].Kind == opMerge {
+		if u.ops[i].Kind == opSetString || u.ops[i].Kind == opSetChild || u.ops[i].Kind == opMerge || u.ops[i].Kind == opMergeList || u.ops[i].Kind == opHMerge {
 			hs = append(hs, []int{i})
 		}
 	}
@@ -732,7 +804,7 @@ func registerPathCheck(prop string, rule string, assumptions []string) {
 
 func init() {
 	registerPathCheck("C12",
-		"breadth-first search over all histories of path operations (SetString/SetInt/SetChild/Remove at ~40 overlapping (name,idx,PathSep) addresses, Merge under 3 policies, Child handles and writes/removals through them) from the empty config; every transition replays the history on a fresh config and a model tree and compares the operation's result and every observation (Has, String, Int, Child, IsDict/IsArray, CountField, Unpack of root/children/handle) at every address; states deduplicated by canonical heap fingerprint + model state; non-trivial = the reached tree holds at least one leaf",
+		"breadth-first search over all histories of path operations (SetString/SetInt/SetChild/Remove at ~40 overlapping (name,idx,PathSep) addresses, Merge of a dict and of a top-level list under 3 policies, Child handles and writes/removals/merges through them, writes the index limit rejects) from the empty config and from a populated config (a 4-element list, nested lists of objects); every transition replays the history on a fresh config and a model tree and compares the operation's result and every observation (Has, String, Int, Child, IsDict/IsArray, CountField, Unpack of root/children/handle) at every address; states deduplicated by canonical heap fingerprint + model state; non-trivial = the reached tree holds at least one leaf",
 		[]string{
 			"histories up to the stated depth over the fixed operation alphabet; labels written are fixed per operation",
 			"a Child handle is treated as a live view until the next Merge on the root (Merge installs copies; staleness after Merge is not claimed either way)",
